@@ -93,7 +93,6 @@ theorem concat_split_cut (a : Arr α) (zero : α) (parts n : Nat) (P Q : List Na
   have hsl := sectionSizes_length n parts hp
   have hsum := sectionSizes_sum n parts hp
   generalize sectionSizes n parts = sizes at *
-  obtain ⟨hP, hn0, hQ⟩ := (mem_append_cons_iff P Q n).1 (hs ▸ hnz)
   have hax : ∀ i (hi : i < pieces.length), axLen P.length pieces[i] = sizes.getD i 0 :=
     fun i hi => axLen_cut _ P Q _ (h3 i hi).1
   have hmap : pieces.map (axLen P.length) = sizes := by
@@ -111,7 +110,7 @@ theorem concat_split_cut (a : Arr α) (zero : α) (parts n : Nat) (P Q : List Na
       obtain ⟨i, hi, rfl⟩ := List.getElem_of_mem hb
       obtain ⟨g1, g2, _⟩ := h3 i hi
       exact ⟨g2, by rw [hax i hi]; exact g1⟩
-    obtain ⟨r, c1, c2, c3, c4⟩ := concatenate_cut zero P Q hP hQ p0 prest hcut
+    obtain ⟨r, c1, c2, c3, c4⟩ := concatenate_cut zero P Q p0 prest hcut
     rw [c1]; congr 1
     rw [hmap, hsum] at c2
     apply Arr.ext_get r a c3 hwf (by rw [c2, hs])
@@ -126,24 +125,37 @@ theorem concat_split_cut (a : Arr α) (zero : α) (parts n : Nat) (P Q : List Na
     rw [hoffs i] at this
     rw [this, (h3 i hi).2.2 p q d hp' hq (by omega)]
 
+/-- an empty array is returned whole by `array_split`, and joining that single piece gives it back -/
+theorem concat_split_empty (a : Arr α) (zero : α) (parts k : Nat) (he : a.isEmpty = true) (hp : 0 < parts) (hk : k < a.ndim) :
+    (a.arraySplit zero parts (some k) >>= fun ps => concatenate ps zero (some k)) = .ok a := by
+  have hd : ¬ (decide (k ≥ a.ndim) = true) := by simp; omega
+  have h1 : a.arraySplit zero parts (some k) = .ok [a] := by
+    unfold Arr.arraySplit
+    rw [if_neg (by omega)]
+    simp only [hd, he, Bool.false_eq_true, if_false, if_true]
+  rw [h1, Res.bind_ok]
+  have hv : validateStackShapes [a] k k = .ok () := by
+    unfold validateStackShapes
+    simp only [List.any_cons, List.any_nil, Bool.or_false, hd, Bool.false_eq_true, if_false, validateStackShapes.go]
+  simp only [concatenate, hv, Res.bind_ok, foldAppend, List.foldl_nil]
+
 /-! ### `append` in whole coordinates -/
 
 theorem appendAxis_coord (a v : Arr α) (zero : α) (k : Nat) (hwa : a.WF) (hwv : v.WF) (hk : k < a.ndim) (hkv : k < v.ndim)
-    (hoff : a.shape.eraseIdx k = v.shape.eraseIdx k) (hnz : 0 ∉ a.shape.eraseIdx k) :
+    (hoff : a.shape.eraseIdx k = v.shape.eraseIdx k) :
     ∃ r, a.appendAxis v zero k = .ok r ∧ r.shape = a.shape.set k (a.shape.getD k 0 + v.shape.getD k 0) ∧ r.WF ∧
       (∀ c, inRange a.shape c = true → r.get? c = a.get? c) ∧
       (∀ c, inRange v.shape c = true → r.get? (c.set k (a.shape.getD k 0 + c.getD k 0)) = v.get? c) := by
   obtain ⟨hs, hPl⟩ := shape_cut a.shape k hk
-  obtain ⟨hP, hQ⟩ := not_mem_of_eraseIdx _ _ hnz
   have her : a.shape.eraseIdx k = a.shape.take k ++ a.shape.drop (k + 1) := List.eraseIdx_eq_take_drop_succ _ _
-  generalize a.shape.take k = P at hs hPl hP her
-  generalize a.shape.drop (k + 1) = Q at hs hQ her
+  generalize a.shape.take k = P at hs hPl her
+  generalize a.shape.drop (k + 1) = Q at hs her
   generalize a.shape.getD k 0 = na at hs ⊢
   subst hPl
   have hsv : v.shape = P ++ v.shape.getD P.length 0 :: Q :=
     shape_cut_of_eraseIdx v.shape P.length P Q hkv rfl (by rw [← hoff, her])
   generalize v.shape.getD P.length 0 = nv at hsv ⊢
-  obtain ⟨r, h1, h2, h3, h4, h5⟩ := appendAxis_cut a v zero na nv P Q hwa hwv hs hsv hP hQ
+  obtain ⟨r, h1, h2, h3, h4, h5⟩ := appendAxis_cut a v zero na nv P Q hwa hwv hs hsv
   refine ⟨r, h1, by rw [h2, hs, set_mid], h3, ?_, ?_⟩
   · intro c hc
     rw [hs] at hc
